@@ -2,7 +2,7 @@
 C08 — NV transpilation preserves program behaviour, not only gates.
 Property theorems only; helper lemmas live in Lemmas/Transpile*.lean.
 -/
-import NetqasmVerif.Lemmas.TranspileStruct
+import NetqasmVerif.Lemmas.TranspileSim
 import NetqasmVerif.Gen.NvExpand
 namespace NQ.C08
 open NQ NQ.Tr
@@ -136,6 +136,173 @@ theorem nongate_order (cfg : Cfg) (S out : List Instr) (h : transpile cfg S = .o
   induction l with
   | nil => rfl
   | cons a l ih => simp [ih]
+
+/-! ## The semantic simulation
+
+FULL STATEMENT of C08 (kept visible; FALSE on the current tree, see F10 below):
+  for every vanilla subroutine `S` the SDK can emit (Q registers written by `set` OR by `load`),
+  `transpile cfg S = .ok out`, and the serialised `out` simulates `S` step for step.
+What is proved is the statement restricted to `QStatic` programs (`…_partial`): every instruction
+other than `set` reads Q registers only straight after a `set` of them, the shape the SDK emits for
+handles with constant ids. Outside `QStatic` the pass raises or picks the wrong circuit (F10,
+`f10_counterexample_*`). Not covered by `QStatic` either: the SDK's multi-pair EPR `mov R R`
+(operand values unknown to the pass; tied by correspondence and oracle only).
+
+Parameters: `M` an abstract instruction semantics with `SemLocal` (C04's obligations), and
+`ExpandSound` — THE C07 HYPOTHESIS "sem (expand g) = sem g": each emitted expansion acts on the
+memory (quantum state included, up to global phase) as the gate and changes no register except
+the one `get_unused_register` returns. -/
+
+/-- **scratch_ok**: on a `QStatic` program the register borrowed for the electron at a gate at
+position `p` (whatever `get_unused_register` returns there) is not inside any window at `p + 1`,
+i.e. no execution reads it before a later `set` re-defines it — it is not live. -/
+theorem scratch_ok (cfg : Cfg) (S : List Instr) (p : Nat) (x : Instr) (hx : S[p]? = some x)
+    (s0 : Reg) (hs : getUnused ((S.take (p + 1)).flatMap topRegs) = .ok s0) :
+    K cfg S (p + 1) s0 = none ∧ K cfg S p s0 = none ∧ s0 ∉ topRegs x ∧ s0.bank = bankQ := by
+  have hf := getUnused_fresh hs
+  refine ⟨?_, ?_, ?_, hf.2⟩
+  · cases hk : K cfg S (p + 1) s0 with
+    | none => rfl
+    | some v => exact absurd (K_mem_used hk) hf.1
+  · cases hk : K cfg S p s0 with
+    | none => rfl
+    | some v =>
+      have := K_mem_used hk
+      refine absurd ?_ hf.1
+      rw [take_succ_of_get hx]; simp only [List.flatMap_append, List.mem_append]; exact Or.inl this
+  · intro hm
+    apply hf.1
+    rw [take_succ_of_get hx]; simp only [List.flatMap_append, List.mem_append]
+    exact Or.inr (by simpa using hm)
+
+/-- **transpile_simulates (partial: under `QStatic`)**. Every finite execution of the vanilla
+subroutine from `s0` to `(pc, s)` is matched by an execution of the serialised NV subroutine from
+the same `s0` to `(index_changes pc, u)` — pc correspondence through the index map — with
+`Rel`: equal memory (classical arrays, quantum state, …), equal non-Q registers, and equal values
+of every Q register the program can read at `pc`. -/
+theorem transpile_simulates_partial {μ : Type} (M : Sem μ) (cfg : Cfg)
+    (hT : TemplatesNoBranch cfg = true) (hW : InfosWF cfg = true) (hpad : isDebug cfg.pad = false)
+    (hL : SemLocal M cfg) (hE : ExpandSound M cfg)
+    (S out : List Instr) (hQ : QStatic cfg S = true) (h : transpile cfg S = .ok out)
+    (s0 s : St μ) (pc : Nat) (hrun : Steps M cfg S (0, s0) (pc, s)) :
+    ∃ cs u, Chunks cfg [] [] S cs ∧ indexChanges cfg S = some (starts 0 cs) ∧
+      Steps M cfg (serialise out) (0, s0) (tposS cs pc, u) ∧ Rel cfg S pc s u := by
+  obtain ⟨cs, hc, hidx, hout, hok⟩ := transpile_structure h
+  have C : Ctx M cfg S out cs := ⟨hT, hW, hpad, hL, hE, hQ, hc, hout, hok⟩
+  obtain ⟨u, h1, h2⟩ := sim_steps C hrun s0 (Rel.init cfg S s0)
+  rw [tposS_zero] at h1
+  exact ⟨cs, u, hc, hidx, h1, h2⟩
+
+/-- **Terminating runs**: if the vanilla subroutine runs off its end in state `s`, the serialised
+NV subroutine runs off *its* end in a state with the same memory and the same non-Q registers —
+except, when the padding `set C15 1337` was appended (a branch targeted the end), the padding
+register (the documented mechanism). -/
+theorem transpile_simulates_final_partial {μ : Type} (M : Sem μ) (cfg : Cfg)
+    (hT : TemplatesNoBranch cfg = true) (hW : InfosWF cfg = true) (hpad : isDebug cfg.pad = false)
+    (hpl : lineOf cfg cfg.pad = none) (rp : Reg) (vp : Int) (hps : setOf cfg cfg.pad = some (rp, vp))
+    (hL : SemLocal M cfg) (hE : ExpandSound M cfg)
+    (S out : List Instr) (hQ : QStatic cfg S = true) (h : transpile cfg S = .ok out)
+    (s0 s : St μ) (hrun : Steps M cfg S (0, s0) (S.length, s)) :
+    ∃ cs u, Chunks cfg [] [] S cs ∧ Steps M cfg (serialise out) (0, s0) ((serialise out).length, u) ∧
+      s.mem = u.mem ∧
+      ∀ r, r.bank ≠ bankQ → (endTargeted cfg S cs = false ∨ r ≠ rp) → s.regs r = u.regs r := by
+  obtain ⟨cs, hc, hidx, hout, hok⟩ := transpile_structure h
+  have C : Ctx M cfg S out cs := ⟨hT, hW, hpad, hL, hE, hQ, hc, hout, hok⟩
+  obtain ⟨u, h1, h2⟩ := sim_steps C hrun s0 (Rel.init cfg S s0)
+  rw [tposS_zero] at h1
+  obtain ⟨u', h3, hm, hr⟩ := final_pad C hpl hps u
+  refine ⟨cs, u', hc, h1.trans h3, by rw [hm]; exact h2.mem, ?_⟩
+  intro r hb hc'
+  rw [hr r hc']; exact h2.nonQ r hb
+
+/-- the generated configuration satisfies the side conditions on the padding instruction -/
+theorem pad_is_set : ∀ d h : Bool, lineOf (Gen.cfg d h) (Gen.cfg d h).pad = none ∧
+    setOf (Gen.cfg d h) (Gen.cfg d h).pad = some (⟨1, 15⟩, 1337) := by
+  decide +kernel
+
+/-! ### non-vacuity: the hypotheses are satisfiable on a non-trivial program -/
+
+/-- a loop around a carbon–carbon gate with an end label: inside `QStatic`, transpiles, pads -/
+def demo : List Instr := [
+  ⟨"core.SetInstruction", [.reg ⟨0, 0⟩, .imm 0]⟩,
+  ⟨"core.BeqInstruction", [.reg ⟨0, 0⟩, .reg ⟨0, 1⟩, .imm 7]⟩,
+  ⟨"core.SetInstruction", [.reg ⟨2, 0⟩, .imm 1]⟩,
+  ⟨"core.SetInstruction", [.reg ⟨2, 1⟩, .imm 2]⟩,
+  ⟨"vanilla.CnotInstruction", [.reg ⟨2, 0⟩, .reg ⟨2, 1⟩]⟩,
+  ⟨"core.AddInstruction", [.reg ⟨0, 0⟩, .reg ⟨0, 0⟩, .reg ⟨0, 2⟩]⟩,
+  ⟨"core.JmpInstruction", [.imm 1]⟩]
+
+example : QStatic (Gen.cfg true false) demo = true
+    ∧ (transpile (Gen.cfg true false) demo).toOption.map (fun o => (o.length, (serialise o).length)) = some (39, 35)
+    ∧ indexChanges (Gen.cfg true false) demo = some [0, 1, 2, 3, 4, 32, 33] := by
+  decide +kernel
+
+/-- `set` classes declare their register as written (decided on the generated table) -/
+def SetWrites (cfg : Cfg) : Bool := cfg.infos.all (fun r => !r.isSet || r.writes == [0])
+
+theorem set_writes_gen : ∀ d h : Bool, SetWrites (Gen.cfg d h) = true := by decide +kernel
+
+theorem writesOf_set {cfg : Cfg} (hSW : SetWrites cfg = true) {i : Instr} {r : Reg} {v : Int}
+    (hs : setOf cfg i = some (r, v)) : writesOf cfg i = [r] := by
+  unfold setOf at hs
+  unfold writesOf
+  cases hi : infoOf cfg i.cls with
+  | none => rw [hi] at hs; cases hs
+  | some info =>
+    rw [hi] at hs
+    simp only at hs ⊢
+    have hw := (List.all_eq_true.1 hSW) info (infoOf_cls hi).1
+    split at hs
+    · rename_i hset
+      simp only [hset, Bool.not_true, Bool.false_or, beq_iff_eq] at hw
+      split at hs
+      · rename_i r1 v1 hops
+        simp only [Option.some.injEq, Prod.mk.injEq] at hs
+        rw [hw, hops]; simp [opReg?, hs.1]
+      · cases hs
+    · cases hs
+
+/-- a semantics satisfying `SemLocal` exists for the generated configuration (the hypotheses of the
+simulation theorem are not contradictory): `set` is `set`, everything else faults. The intended
+instance is the executor model of C04. -/
+example (d h : Bool) : ∃ M : Sem Unit, SemLocal M (Gen.cfg d h) ∧ ExpandSound M (Gen.cfg d h) := by
+  refine ⟨⟨fun i s => match setOf (Gen.cfg d h) i with
+      | some (r, v) => some ⟨fun r' => if r' = r then some v else s.regs r', s.mem⟩
+      | none => none, fun _ _ => none⟩, ?_, ?_⟩
+  rotate_left
+  · intro g info rv used ex s u s' hi hg _ _ _ _ _ he
+    have := (setOf_none_of_gate (expansions_have_no_branch d h).2.1
+      (by rw [isGate_eq hi]; exact hg)).1
+    simp [this] at he
+  have hSW := set_writes_gen d h
+  constructor
+  · intro i s s' r hex hnw
+    simp only at hex
+    split at hex
+    · rename_i r0 v0 hs
+      simp only [Option.some.injEq] at hex
+      subst hex
+      rw [writesOf_set hSW hs] at hnw
+      have : r ≠ r0 := by simpa using hnw
+      simp [this]
+    · cases hex
+  · intro i r v s hs
+    simp only [hs]
+    exact ⟨_, rfl, trivial, fun _ => rfl⟩
+  · intro i s u s' _ _ hex
+    simp only at hex ⊢
+    split at hex
+    · rename_i r0 v0 hs
+      simp only [Option.some.injEq] at hex
+      subst hex
+      refine ⟨_, rfl, trivial, ?_⟩
+      intro r hr
+      rw [writesOf_set hSW hs] at hr
+      have : r = r0 := by simpa using hr
+      simp [this]
+    · cases hex
+  · intro _ _ _ _ _; rfl
+  · intro _ _ _; rfl
 
 /-! ## Witnesses of the findings, in the model -/
 
